@@ -16,15 +16,15 @@ impl ActivePeersRef {
                 r is None ==> *final(self) == *old(self),
     { unimplemented!() }
 }
-pub struct OutboundRequestLayer;
-impl OutboundRequestLayer { #[verifier::external_body] pub fn clone(&self) -> (r: Self) { unimplemented!() } }
+pub struct OutboundRequestLayer { pub id: u64 }      // the layer stack Builder::start built (unit timeout proves what it contains)
+impl OutboundRequestLayer { #[verifier::external_body] pub fn clone(&self) -> (r: Self) ensures r == *self { unimplemented!() } }
 pub struct Bytes { pub v: Vec<u8> }
 pub struct Request<T> { pub body: T }
 pub struct Response<T> { pub body: T }
-pub struct Peer { pub connection: Connection }
+pub struct Peer { pub connection: Connection, pub layer: OutboundRequestLayer }
 impl Peer {
     #[verifier::external_body]
-    pub fn new(connection: Connection, outbound_request_layer: OutboundRequestLayer, config: Config) -> (r: Peer) ensures r.connection == connection { unimplemented!() }
+    pub fn new(connection: Connection, outbound_request_layer: OutboundRequestLayer, config: Config) -> (r: Peer) ensures r.connection == connection, r.layer == outbound_request_layer { unimplemented!() }
     #[verifier::external_body]
     pub async fn rpc(&mut self, request: Request<Bytes>) -> (r: Result<Response<Bytes>>) { unimplemented!() }
 }
@@ -48,6 +48,7 @@ def build(C):
         r is Some <==> (old(self).active_peers.live && old(self).active_peers.set.0.connections@.contains_key(peer_id)), // @OBL NetworkInner::peer::listed_iff_connected [C09] a peer handle is handed out iff that peer is in the connected set right now
         r is Some ==> r->Some_0.connection == old(self).active_peers.set.0.connections@[peer_id], // @OBL NetworkInner::peer::uses_registered_connection [C09,C04] RPCs to a peer go over the one registered connection of that peer
         final(self).active_peers.set.0 == old(self).active_peers.set.0, // @OBL NetworkInner::peer::read_only [C09] looking a peer up changes nothing
+        r is Some ==> r->Some_0.layer == old(self).outbound_request_layer, // @OBL NetworkInner::peer::carries_the_network_outbound_layer [C11] every peer handle a network hands out sends its RPCs through the network's outbound layer stack (the one Builder::start built with the configured default timeout)
 ''')
     t += C.fn(NET, 'impl NetworkInner :: fn rpc', 'NetworkInner::rpc', ['C09'], ret='r', sig_rewrites=[('&self', '&mut self')], spec='''
     ensures
